@@ -330,6 +330,43 @@ def run(res, tier):
            key='HANDOFF-ATOMIC|%s|available-before-dispatch' % f.q,
            message='ThreadFinishedProcessingClientMessages re-dispatches before it has moved the finishing thread to _availableThreads: in a saturated pool the dispatch finds no free thread (and is '
                    'at the thread limit), gives up, and nothing triggers it again — with one pool thread the pending Messages are never handled and UnregisterClient() hangs')
+    # ---------------------------------------------------------------------------------- UNREGISTER-ATOMIC (check-then-act)
+    res.rule('UNREGISTER-ATOMIC', 'UnregisterClient takes the client out of _registeredClients in the SAME critical section (the same _poolLock guard object, not merely "under the lock") in which it '
+                                  'evaluated DoesClientHaveMessagesOutstandingUnsafe(client) and found it false: while the client is registered and the lock is free, SendMessageToThreadPool() accepts '
+                                  'Messages for it', floor=1)
+    f = fx.fn1(TP + '::UnregisterClient')
+    lf = L.LockFlow(f)
+
+    def guard_ids_at(node):
+        p_ = P.pos_of(f, node)
+        base = lf.IN.get(p_[0]) if p_ else None
+        return set(lf._transfer(p_[0], base, upto=p_[1])) if base is not None else set()
+    rems = [c for c in f.walk() if c['k'] == 'CXXMemberCallExpr' and (c.get('q') or '').split('::')[-1] in ('Remove', 'RemoveWithDefault') and c.receiver() is not None
+            and A.strip_casts(c.receiver()).get('n') == '_registeredClients']
+    if not rems:
+        raise AnalysisBroken('UNREGISTER-ATOMIC: the removal from _registeredClients was not found in UnregisterClient')
+    for rm in rems:
+        ids = guard_ids_at(rm)
+        # every path to the removal decided "nothing outstanding" under the guard that is still held — or could not register for the wake-up (Put() failed: there is nothing it could wait for)
+        paths, complete = C.paths_between(f, (f.entry, -1), P.pos_of(f, rm))
+        okr = complete and bool(paths)
+        for asg in paths:
+            okp = False
+            for (cid, truth) in asg.items():
+                for (cn, t) in A.implied_atoms(f.nodes[cid], truth):
+                    core, pol = A.bool_polarity(cn, t)
+                    if pol is False and core.is_call() and (core.get('q') or '').endswith('::DoesClientHaveMessagesOutstandingUnsafe') and (guard_ids_at(core) & ids):
+                        okp = True
+                    st = P.is_status_test(core) if core.is_call() else None
+                    if st and ((st == 'err') == pol) and any(x.is_call() and (x.get('q') or '').split('::')[-1] in ('Put', 'PutWithDefault') and x.receiver() is not None
+                                                            and A.strip_casts(x.receiver()).get('n') == '_waitingForCompletion' for x in core.walk()) and (guard_ids_at(core) & ids):
+                        okp = True
+            okr = okr and okp
+        res.ob('UNREGISTER-ATOMIC', f.where(rm), 'UnregisterClient: "nothing outstanding" is decided and the client is removed under one and the same guard', okr, function=f.q,
+               key='UNREGISTER-ATOMIC|%s' % f.q, how='guard object(s) held at the removal: %d' % len(ids),
+               message='UnregisterClient decides under _poolLock whether the client has Messages outstanding, RELEASES the lock (and maybe waits), and removes the client from _registeredClients in a later '
+                       'critical section without looking again: a SendMessageToThreadPool() that gets the lock in between is accepted (the client is still registered) and is dispatched to a pool thread — '
+                       'its handler runs after UnregisterClient() has returned (use after free when the caller deletes the client) — or lands in the deferred queue and is thrown away by the final cleanup')
     res.explanation = ('Static decision of the thread pool\'s locking structure: %d accesses to the pool tables, each with _poolLock in the must-hold lock set (forward data flow over the CFG, RAII guard '
                        'construction/destruction/UnlockEarly as gen/kill, helper preconditions inferred from all call sites); no blocking call under the lock; hand-off, being-handled flag and pending-table '
                        'removal in one critical section; submit chooses the queue by the flag; completion clears, promotes, dispatches under one guard; unregister registers atomically with its test and waits '
